@@ -1347,3 +1347,178 @@ def r17_7(rep):
     rep.check(ok, "forced-include-is-a-dependency", "`-include` arguments found in clang_args are added to the dependency set" if ok else
               "`-include` is only recognised when the command line is WRITTEN (extra input headers) or to detect C++ (%s); an `-include` the user "
               "passes after `--` is never reported" % ", ".join(sorted({b.path.split("::")[-1] for b, _, _, _ in sites})), sites[0][0].loc(sites[0][1]))
+
+
+# ---------------------------------------------------------------------------------------------------------
+# R17.8  the reported path is the path libclang read
+# ---------------------------------------------------------------------------------------------------------
+IDENTITY_METHODS = {"clone", "to_owned", "to_string", "into", "into_boxed_str", "as_str", "as_ref", "borrow", "deref", "as_deref", "to_str", "into_string"}
+
+
+def _pure_wrappers(b, n, ok_callees):
+    """peel Some(..)/identity conversions/unsafe blocks/locals; returns the innermost expression"""
+    seen = 0
+    while seen < 20:
+        seen += 1
+        n = strip(n)
+        k = n.get("k")
+        if k == "Block" and not n.get("stmts") and n.get("tail") is not None:
+            n = n["tail"]
+        elif k == "Call" and (n.get("callee") or n.get("ctor_of") or "").endswith(("Some", "Ok")) and n.get("args"):
+            n = n["args"][0]
+        elif k == "MCall" and n["name"] in IDENTITY_METHODS:
+            n = n["recv"]
+        elif k in ("AddrOf", "Unary"):
+            n = n["e"]
+        elif k == "Local" and b.local_init(n["id"]) is not None and n["id"] not in b.local_assigned:
+            n = b.local_init(n["id"])
+        elif k == "Call" and (n.get("callee") or "") in ok_callees and n.get("args"):
+            n = n["args"][0]
+        else:
+            return n
+    return n
+
+
+@RULES.rule("R17.8", "the name reported for an included file is the string libclang returned for it", floor=3)
+def r17_8(rep):
+    """clang names an included file the way it opened it (`./foo/../config.h` when `foo` is a symlink to somewhere else).  That
+    spelling resolves to the file that was read; a textually "cleaned" one (`config.h`) may name a file that does not exist while the
+    real one disappears from the depfile (seeded change).  From `clang_getFileName` to the `include_file` callbacks and `add_dep`
+    only moves and conversions may touch the string (`cxstring_into_string`, `Some`, `into_boxed_str`, `&`, ..)."""
+    prog = rep.prog
+    g = rep.need(prog.fn("clang::Cursor::get_included_file_name"), "Cursor::get_included_file_name")
+    rets = [n.get("e") for n in g.walk() if n["k"] == "Ret" and n.get("e") is not None]
+    tail = g.root.get("tail")
+    vals = []
+
+    def leaves(e):
+        e = strip(e)
+        if e.get("k") == "If":
+            leaves(e["then"])
+            if "else" in e:
+                leaves(e["else"])
+        elif e.get("k") == "Match":
+            for a in e["arms"]:
+                leaves(a["body"])
+        elif e.get("k") == "Block" and e.get("tail") is not None:
+            leaves(e["tail"])
+        else:
+            vals.append(e)
+    for e in rets + ([tail] if tail is not None else []):
+        leaves(e)
+    somes = [v for v in vals if "None" not in g.canon(v, 1).split("(")[0]]
+    rep.need(somes, "the Some(..) result of get_included_file_name")
+    for v in somes:
+        inner = _pure_wrappers(g, v, {"clang::cxstring_into_string", "clang::cxstring_to_string_leaky"})
+        ok = inner.get("k") == "Call" and (inner.get("callee") or "").endswith("clang_getFileName")
+        rep.check(ok, "file-name-unchanged@get_included_file_name", "Some(cxstring_into_string(clang_getFileName(file)))" if ok else
+                  "the string returned by `clang_getFileName` goes through `%s` before it is reported: a rewritten path need not name the "
+                  "file clang read" % g.canon(inner, 2)[:80], g.loc(v))
+    # consumers
+    n = 0
+    for p, b in sorted(prog.bodies.items()):
+        gets = b.calls(lambda x: x["k"] == "MCall" and (x.get("callee") or x.get("resolved") or "").endswith("clang::Cursor::get_included_file_name"))
+        if not gets:
+            continue
+        for c in b.calls(lambda x: x["k"] in ("Call", "MCall") and ((x.get("callee") or "").endswith(("BindgenContext::add_dep", "ParseCallbacks::include_file")) or
+                                                                      x.get("name") == "include_file")):
+            arg = c["args"][-1]
+            src = b.canon(arg, 10)
+            if "get_included_file_name" not in src:
+                continue
+            n += 1
+            # only identity conversions between the call and the use
+            bad = None
+            x = strip(arg)
+            hops = 0
+            while hops < 20:
+                hops += 1
+                x = strip(x)
+                if x.get("k") == "MCall" and x["name"] in IDENTITY_METHODS:
+                    x = x["recv"]
+                elif x.get("k") in ("AddrOf", "Unary"):
+                    x = x["e"]
+                elif x.get("k") == "Local":
+                    d = b.local_def.get(x["id"])
+                    if x["id"] in b.local_assigned:
+                        bad = "a mutated local"
+                        break
+                    if d and d[0][0] == "let" and d[0][1].get("init") is not None:
+                        x = d[0][1]["init"]
+                    elif d and d[0][0] == "arm":
+                        x = d[0][1]["scrut"]
+                    elif d and d[0][0] == "letcond":
+                        x = d[0][1]["init"]
+                    else:
+                        break
+                elif x.get("k") == "MCall" and (x.get("callee") or x.get("resolved") or "").endswith("get_included_file_name"):
+                    break
+                else:
+                    bad = b.canon(x, 3)[:80]
+                    break
+            who = (c.get("callee") or c.get("name") or "").split("::")[-1]
+            rep.check(bad is None, "file-name-unchanged@%s:%s" % (p.split("::")[-1], who), "passed on as returned" if bad is None else
+                      "the included file's name goes through `%s` before `%s` sees it" % (bad, who), b.loc(c))
+    rep.need(n >= 2, "consumers of get_included_file_name (callback + add_dep)")
+
+
+# ---------------------------------------------------------------------------------------------------------
+# R17.9  the depfile does not depend on the fate of other side outputs
+# ---------------------------------------------------------------------------------------------------------
+def _short9(b):
+    return b.path.split("::")[-1]
+
+
+@RULES.rule("R17.9", "whenever bindings are generated and a depfile was asked for, the depfile write is attempted", floor=2)
+def r17_9(rep):
+    """The depfile is written on the way to the bindings (in `codegen::codegen`).  Nothing that can fail for an unrelated reason may
+    stand between the start of that function and the write: with `?` on the graphviz dump in front of it, `--emit-ir-graphviz
+    /no/such/dir/x.dot --depfile out.d` still produced bindings (exit 0) but left the previous run's `out.d` in place (seeded change).
+    Per function on the call chain from `codegen::codegen` to `DepfileSpec::write`: the site is guarded by nothing but `depfile` being
+    set, and no `?` / `return` of the same function lies before it."""
+    prog = rep.prog
+    sites = []
+    for p, b in prog.bodies.items():
+        for c in b.calls(lambda x: (x.get("callee") or x.get("resolved") or "").endswith("DepfileSpec::write")):
+            sites.append((b, c))
+    rep.need(sites, "the call of DepfileSpec::write")
+    import c08
+    idx = c08.call_index(prog)
+    n = 0
+    for b0, c0 in sites:
+        chain = [(b0, c0)]
+        seen = {b0.path}
+        while chain[-1][0].path != "codegen::codegen" and len(chain) < 5:
+            callers = [x for x in idx.get(chain[-1][0].path, []) if x[0].path not in seen]
+            if len(callers) != 1:
+                break
+            chain.append(callers[0])
+            seen.add(callers[0][0].path)
+        rep.check(chain[-1][0].path == "codegen::codegen", "depfile-write-on-the-codegen-path", "reached from codegen::codegen through %s" %
+                  " <- ".join(_short9(x[0]) for x in chain), b0.loc(c0))
+        for b, c in chain:
+            n += 1
+            # the closure (or function) the site lives in
+            scope = next((a for a in b.ancestors(c) if a["k"] == "Closure"), None)
+            scope_nodes = list(b.walk(scope["body"])) if scope is not None else list(b.walk())
+            before = [x for x in scope_nodes if x["k"] in ("Try", "Ret") and (x.get("s") or [0, 0, 0])[1:3] < (c.get("s") or c.get("ns"))[1:3]
+                      and not any(a["k"] == "Closure" and a is not scope for a in b.ancestors(x) if scope is None or any(y is a for y in scope_nodes))]
+            def only_depfile(g3):
+                if g3[1] != "cond":
+                    return False
+                src = b.canon(g3[2], 10)
+                others = [f for f in re.findall(r"BindgenOptions::(\w+)", src) if f != "depfile"]
+                return "depfile" in src and not others
+            gs = [g3 for g3 in b.guards(c, nested=True) if not only_depfile(g3)]
+            if scope is not None:
+                gs = [g3 for g3 in gs if g3 not in b.guards(scope, nested=True)]
+            ok = not before and not gs
+            what = []
+            if before:
+                what.append("`%s` at %s can leave first" % (b.canon(before[0], 3)[:60], b.loc(before[0])))
+            if gs:
+                what.append("guarded by `%s`" % (b.canon(gs[0][2], 4)[:60] if gs[0][1] == "cond" else gs[0][1]))
+            rep.check(ok, "depfile-write-unconditional@%s" % _short9(b), "nothing fallible in front of it" if ok else
+                      "the depfile write is not reached on every path (%s): bindings are still produced, the depfile is missing or stale"
+                      % "; ".join(what), b.loc(c))
+    rep.need(n >= 1, "functions between codegen::codegen and DepfileSpec::write")
